@@ -272,6 +272,7 @@ theorem C15_nonmember_raises (e : Enumeration) (x : Input) (hraw : ∀ a, x ≠ 
   | otherArr n =>
     have := (List.mem_replicate.mp hel).1
     exact this
+  | scalarArr el' => trivial
 
 example : Elem.member 1 0 ∈ (Input.seq [.member 0 2, .member 1 0]).elems ∧
     ¬ (Elem.member 1 0).Designates exE ∧ ¬ (Elem.int 3).Designates exE ∧ ¬ (Elem.int (-1)).Designates exE ∧
@@ -295,8 +296,37 @@ theorem C15_empty_accepted (e : Enumeration) (x : Input) (hraw : ∀ a, x ≠ .e
   | strArr ss => rw [encode_strArr]; exact if_pos h0
   | objArr xs => rw [encode_objArr]; exact if_pos h0
   | otherArr n => rw [encode_otherArr]; exact if_pos h0
+  | scalarArr el => simp [Input.len] at h0
 
 example : (Input.otherArr 0).len = 0 ∧ encode exE (.otherArr 0) = .ok ⟨0, []⟩ := by decide
+
+/-- **A 0-dimensional array is refused whatever it holds** (`len()` of an unsized object): it is
+not a sequence of elements. -/
+theorem C15_scalar_array_raises (e : Enumeration) (el : Elem) :
+    ∃ m, encode e (.scalarArr el) = .error m := ⟨_, rfl⟩
+
+example : encode exE (.scalarArr (.int 1)) = .error "TypeError" := by decide
+
+/-- **Decoding commutes with re-indexing.** Whatever positions are selected from an encoded
+array through the ndarray API (a slice, a reversed view, a boolean mask, an index array, `take`,
+`repeat`, a copy), the result is an array of the same enumeration that decodes to the members
+(names) found at those positions of the decoded original, in the order selected. -/
+theorem C15_decode_take (e : Enumeration) (a : EnumArray) (ms : List Elem) (ns : List String)
+    (positions : List Nat) (hpos : ∀ p ∈ positions, p < a.idx.length)
+    (hd : decode e a = .ok ms) (hs : decodeToStr e a = .ok ns) :
+    ∃ b, a.take positions = .ok b ∧ b.owner = a.owner ∧
+      decode e b = .ok (positions.filterMap (fun p => ms[p]?)) ∧
+      decodeToStr e b = .ok (positions.filterMap (fun p => ns[p]?)) := by
+  obtain ⟨hall, hms⟩ := decode_ok_inv hd
+  obtain ⟨_, hns⟩ := decodeToStr_ok_inv hs
+  refine ⟨_, take_ok a positions hpos, rfl, ?_, ?_⟩
+  · rw [decode_ok e _ (fun i hi => hall i (mem_filterMap_getElem? hi)), hms, filterMap_getElem?_map]
+  · rw [decodeToStr_ok e _ (fun i hi => hall i (mem_filterMap_getElem? hi)), hns, filterMap_getElem?_map]
+
+example : decode exE ⟨0, [2, 1, 0, 1]⟩ = .ok [.member 0 2, .member 0 1, .member 0 0, .member 0 1] ∧
+    (∀ p ∈ [3, 3, 0], p < (⟨0, [2, 1, 0, 1]⟩ : EnumArray).idx.length) ∧
+    (⟨0, [2, 1, 0, 1]⟩ : EnumArray).take [3, 3, 0] = .ok ⟨0, [1, 1, 2]⟩ ∧
+    decodeToStr exE ⟨0, [1, 1, 2]⟩ = .ok ["a", "a", "c"] := by decide
 
 end OFCore
 
@@ -312,3 +342,5 @@ end OFCore
 #print axioms OFCore.C15_nonmember_raises
 #print axioms OFCore.C15_mixed_raises
 #print axioms OFCore.C15_empty_accepted
+#print axioms OFCore.C15_scalar_array_raises
+#print axioms OFCore.C15_decode_take
